@@ -325,7 +325,7 @@ impl Job {
         }
 
         // oracle
-        let v = oracle(preceded, "t", "k", ta, tb, wh, limit, &ra, &rb, &pairs, parsed_unl.as_deref(), true, !(has_dups && limit.is_some()));
+        let v = oracle(preceded, "t", "k", ta, tb, wh, limit, &ra, &rb, &pairs, parsed_unl.as_deref(), !(has_dups && limit.is_some()));
         j.judged_a = v.judged_a;
         let mut by_class: BTreeMap<String, String> = BTreeMap::new();
         for (cl, d) in v.failures {
